@@ -157,6 +157,103 @@ def run_seeded(prop, items, repo="/repo"):
     return out
 
 
+def benign_groups():
+    """the stored behaviour-preserving batches, greedily grouped so that the patches of one group touch pairwise disjoint files
+    (one scratch copy and one extraction per group)"""
+    bdir = os.path.join(VERIF, "benign")
+    groups = []
+    for batch in sorted(os.listdir(bdir)) if os.path.isdir(bdir) else []:
+        patch = os.path.join(bdir, batch, "combined.diff")
+        if not os.path.exists(patch):
+            continue
+        files = {l[6:].strip() for l in open(patch) if l.startswith("+++ b/")}
+        for g in groups:
+            if not (files & g["files"]):
+                g["items"].append((batch, patch))
+                g["files"] |= files
+                break
+        else:
+            groups.append({"items": [(batch, patch)], "files": set(files)})
+    return groups
+
+
+def benign_facts(repo, items):
+    """facts of `repo` + a group of stored behaviour-preserving patches; cached (gzip) under .cache/benign/<digest of tree and patches>
+    so that the thorough tiers of all properties share one extraction per group and tree"""
+    import gzip
+    import hashlib
+    base = factsmgr.digest(repo, "libs")
+    key = hashlib.sha256((base + "".join(open(p_).read() for _b, p_ in items)).encode()).hexdigest()[:16]
+    cdir = os.path.join(factsmgr.CACHE, "benign", key)
+    if os.path.isdir(cdir) and os.path.exists(os.path.join(cdir, "DONE")):
+        return cdir, "cached", [b_ for b_, _p in items]
+    root = scratch_root()
+    dst = os.path.join(root, "repo")
+    os.makedirs(root, exist_ok=True)
+    try:
+        make_copy(repo, dst)
+        applied = []
+        for b_, p_ in items:
+            r = subprocess.run(["git", "apply", p_], cwd=dst, capture_output=True, text=True)
+            if r.returncode == 0:
+                applied.append(b_)
+        if not applied:
+            return None, "stale: no patch of the group applies", []
+        try:
+            fdir, info = factsmgr.ensure_facts(dst, "libs", verbose=False)
+        except SystemExit:
+            return None, "does-not-compile", applied
+        shutil.rmtree(cdir, ignore_errors=True)
+        os.makedirs(cdir)
+        for f in os.listdir(fdir):
+            if f.endswith(".json"):
+                with open(os.path.join(fdir, f), "rb") as src, gzip.open(os.path.join(cdir, f + ".gz"), "wb", compresslevel=3) as out:
+                    shutil.copyfileobj(src, out)
+        open(os.path.join(cdir, "DONE"), "w").write(" ".join(applied))
+        shutil.rmtree(fdir, ignore_errors=True)
+        bdir = os.path.join(factsmgr.CACHE, "benign")
+        ents = sorted((os.path.getmtime(os.path.join(bdir, e)), e) for e in os.listdir(bdir))
+        for _t, e in ents[:-24]:
+            shutil.rmtree(os.path.join(bdir, e), ignore_errors=True)
+        return cdir, "extracted", applied
+    finally:
+        shutil.rmtree(dst, ignore_errors=True)
+
+
+def run_benign(ck, prop, repo="/repo"):
+    """Negative self-test: the property's rules must be SILENT on every stored behaviour-preserving refactoring (benign/<batch>/
+    combined.diff applied to the current tree, several batches with disjoint files at a time).  A rule that fires there has a false
+    alarm; that is reported as a SELFTEST violation."""
+    import report
+    known = {k["key"] for k in report.load_known() if k.get("status") == "known" and k.get("property") == prop}
+    mod = importlib.import_module("props.%s" % prop.lower())
+    res = {}
+    t0 = time.time()
+    for g in benign_groups():
+        names = "+".join(b_ for b_, _p in g["items"])
+        cdir, how, applied = benign_facts(repo, g["items"])
+        if cdir is None:
+            res[names] = how
+            continue
+        c2 = Check(prop, "thorough", getattr(mod, "LEVEL", "other"))
+        c2.extract_info = {"repo": repo}
+        try:
+            mod.run(c2, Facts(cdir), "thorough")
+        except Exception as e:     # noqa
+            res[names] = "checker crashed: %s" % str(e)[:120]
+            ck.violation("SELFTEST", "%s:benign:%s:crash" % (prop, names), "/verif/benign", "the rules crash on behaviour-preserving refactorings: %s" % str(e)[:200])
+            continue
+        base_keys = {v["key"] for v in ck.violations}
+        alarms = [v["key"] for v in c2.violations if v["key"] not in known and v["key"] not in base_keys]
+        res[names] = "silent (%s; %d refactorings)" % (how, 8 * len(applied)) if not alarms else "FALSE ALARM: %s" % alarms[:3]
+        for k in alarms[:5]:
+            ck.violation("SELFTEST", "%s:benign:%s:%s" % (prop, names, k), "/verif/benign",
+                         "the rule fires on behaviour-preserving refactorings (batches %s): a false alarm of the checker" % names)
+        if not alarms:
+            ck.ok("SELFTEST", "%s:benign:%s" % (prop, names), "silent on %d behaviour-preserving refactorings" % (8 * len(applied)))
+    ck.analysed["benign"] = {"results": res, "wall_s": round(time.time() - t0, 1)}
+
+
 def run_for(ck, prop):
     import breaks as B
     mine = [b for b in B.BREAKS if b["prop"] == prop]
@@ -168,6 +265,8 @@ def run_for(ck, prop):
     res = run_breaks(prop, mine, ck.extract_info.get("repo", "/repo")) if mine else {}
     res.update(run_seeded(prop, sd, ck.extract_info.get("repo", "/repo")))
     ck.analysed["selftest"] = {"results": res, "wall_s": round(time.time() - t0, 1)}
+    if os.environ.get("VERIF_NO_BENIGN") != "1":
+        run_benign(ck, prop, ck.extract_info.get("repo", "/repo"))
     for name, r in sorted(res.items()):
         if r == "detected":
             ck.ok("SELFTEST", "%s:%s" % (prop, name), "seeded break detected")
